@@ -101,6 +101,7 @@ from mypy.nodes import TryStmt as TryStmt
 from mypy.nodes import TupleExpr as TupleExpr
 from mypy.nodes import TypeAlias as TypeAlias
 from mypy.nodes import TypeAliasExpr as TypeAliasExpr
+from mypy.nodes import TypeAliasStmt as TypeAliasStmt
 from mypy.nodes import TypeApplication as TypeApplication
 from mypy.nodes import TypedDictExpr as TypedDictExpr
 from mypy.nodes import TypeVarExpr as TypeVarExpr
@@ -938,3 +939,11 @@ def _(node: ClassPattern, visitor: TraverserVisitor) -> None:
 @accept.register
 def _(node: RequiredType, visitor: TraverserVisitor) -> None:
     return accept(node.item, visitor)
+
+
+@accept.register
+def _(node: TypeAliasStmt, visitor: TraverserVisitor) -> None:
+    # `type X = ...` statements have no `visit_*` method (yet), but they must not stop the
+    # traversal: visit the children like Mypy's own traverser does.
+    accept(node.name, visitor)
+    accept(node.value, visitor)
